@@ -24,6 +24,10 @@ func main() {
 		childGenMain()
 		return
 	}
+	if os.Getenv("VERIF_CHILD_RACE") != "" {
+		c10RaceChild()
+		return
+	}
 	out := flag.String("out", "", "output directory")
 	tier := flag.String("tier", "quick", "quick|thorough")
 	seed := flag.Uint64("seed", 1, "PRNG seed")
